@@ -113,8 +113,10 @@ func (c *Conversation) IsEncrypted() bool {
 // the peer and switches to unencrypted communication.
 func (c *Conversation) End() (toSend []ValidMessage, err error) {
 	previousMsgState := c.msgState
+	// whatever the state: nothing of an authentication in progress survives the end of the conversation
+	// (the peer's disconnect message may have been followed by SMP data that was processed after it)
+	c.smp.wipe()
 	if c.msgState == encrypted {
-		c.smp.wipe()
 		// Error can only happen when Rand reader is broken
 		toSend, _, err = c.createSerializedDataMessage(nil, messageFlagIgnoreUnreadable, []tlv{{tlvType: tlvTypeDisconnected}})
 	}
